@@ -239,6 +239,7 @@ def main(argv=None):
 
     # ---- tasks
     tasks = module.tasks(a.tier)
+    a.only = a.only or os.environ.get("SYMLAS_ONLY")  # (bin/seedtest: restrict a run against a scratch tree)
     if a.only:
         import re as _re
 
